@@ -5,7 +5,7 @@ import io
 import json
 import math
 
-from .. import common, dast, gen, refsem, world as W
+from .. import common, dast, gen, refsem, smworld, world as W
 
 PROP = "C19"
 LEVEL = "exploration"
@@ -17,7 +17,7 @@ RULE = ("seeded histories of 3-12 public calls (synthesize_trials with every str
 ASSUMPTIONS = ["reference semantics (sim/refsem.py) reads the documentation correctly (used for the validity part only)"]
 BUDGET = {"quick": 45, "thorough": 900}
 RUNS = {"quick": 3000, "thorough": 220000}
-STRATS = ["IterateSATGen", "RandomGen", "CMSGen", "UniGen", "IterateGen", "UniformGen"]
+STRATS = ["IterateSATGen", "RandomGen", "CMSGen", "UniGen", "IterateGen", "UniformGen", "SMGen"]
 OPS = ["synth", "synth", "print", "tabulate", "csv", "tuples", "dicts", "mismatch"]
 
 
@@ -95,6 +95,8 @@ def run_history(case):
             return common.result_base(w, outcome="skip", reason="constructor-refused:" + type(e).__name__), None
         snap0 = snapshot(blk)
         ucols = user_columns(ast)
+        sm = smworld.SMWorld(w, dt=1e-6, line_cap=60000)
+        sm.install()
         exps = {}
         first_cols = None
         for oi, op in enumerate(case["history"]):
@@ -106,7 +108,14 @@ def run_history(case):
             try:
                 with common.time_limit(2):
                     if kind == "synth":
-                        res = sp.synthesize_trials(blk, op["n"], common.strategy(op["strategy"]))
+                        if op["strategy"] == "SMGen":
+                            res, smerr = sm.run(lambda: sp.synthesize_trials(blk, op["n"], sp.SMGen))
+                            if smerr is not None:
+                                # refusal / no answer within the line cap: SMGen's own business (C29), not a history effect
+                                obs["ops"].append("synth:SMGen-" + type(smerr).__name__)
+                                continue
+                        else:
+                            res = sp.synthesize_trials(blk, op["n"], common.strategy(op["strategy"]))
                         exps[op["out"]] = res
                     else:
                         e = exps.get(op["exp"])
@@ -178,6 +187,22 @@ def run_history(case):
                     continue
                 obs["synth_ok"] += 1
                 res = exps[op["out"]]
+                if not res and op["n"] > 0 and len(obs["ops"]) > 1 and op["strategy"] != "SMGen":
+                    # nothing came back: is that the design, or the history?  Ask a fresh block in the same world.
+                    try:
+                        fb_ = build.Builder(ast, continuous_env=w).block(ast["block"])
+                        w.draw_cap = w.rng.draws + 20000
+                        w.peer_calls_cap = w.counters.get("peer.solve", 0) + 60
+                        with common.time_limit(5):
+                            fres = sp.synthesize_trials(fb_, op["n"], common.strategy(op["strategy"]))
+                        if fres:
+                            obs["c19"].append(("C19/later-synthesize-returns-nothing",
+                                               "op %d synthesize_trials(%s, n=%d) returned [] after %s, but returns %d sequence(s) on a fresh block" % (
+                                                   oi, op["strategy"], op["n"], obs["ops"][:-1], len(fres))))
+                    except (common.InnerTimeout, W.HarnessCap):
+                        pass
+                    except Exception:   # noqa
+                        pass
                 for e in res:
                     hidden = [k for k in e if not isinstance(k, str)]
                     if hidden:
